@@ -204,3 +204,67 @@ Example C01_h2c_kat_sign_pipeline :
   = Some (hex "a46ecae296a0a2f24c2e3f5b5411789068aa1acb08d19929fd481204ee7e033b62e670a516f84b2a188cab0d6aad1f7e").
 Proof. vm_compute. reflexivity. Qed.
 Close Scope string_scope.
+
+(* ------------------------------------------------------------------------------------------
+   The remaining stages of map_to_g1 keep the curve equations, for ALL inputs
+   (Proofs/IsoG1Proofs.v, Proofs/MapToG1Chain.v; p is prime by Proofs/Primes.v). *)
+From V Require Import Proofs.IsoG1Proofs Proofs.MapToG1Chain.
+
+(* the 11-isogeny of RFC 9380 Appendix E.2 as the specification evaluates it (rational map with
+   Fermat inverses): a point of E1' with a finite image is sent to a point of E1: y^2 = x^3 + 4.
+   Reduces to G M^2 D^3 = E^2 (N^3 + 4 D^3) in F_p[X], checked on the coefficient lists. *)
+Theorem C01_h2c_iso_spec_on_E1 :
+  forall x y,
+    (y * y) mod pZ = (x * x * x + rfc_Aprime * x + rfc_Bprime) mod pZ ->
+    forall X Y,
+      spec_iso_map ZNum pZ (map (n_of_Z ZNum) rfc_k1) (map (n_of_Z ZNum) rfc_k2)
+                   (map (n_of_Z ZNum) rfc_k3) (map (n_of_Z ZNum) rfc_k4) (Some (x, y)) = Some (X, Y) ->
+      (Y * Y) mod pZ = (X * X * X + 4) mod pZ.
+Proof. exact (spec_iso_on_E1 Primes.bls_p_prime). Qed.
+
+(* the same isogeny as blst evaluates it (isogeny_map_to_E1, Jacobian coordinates, tables
+   regenerated from the C source): Y^2 = X^3 + A' X Z^4 + B' Z^6 is sent to Y^2 = X^3 + 4 Z^6 *)
+Theorem C01_h2c_iso_map_on_E1 :
+  forall P, jac_eq pZ iso_Aprime iso_Bprime P -> jac_eq pZ 0 4 (iso_map ZNum pZ (iso_tabs ZNum) P).
+Proof. exact iso_map_on_E1. Qed.
+
+(* POINTonE1_dadd keeps y^2 = x^3 + a x + b with a = a4 (0 when a4 = NULL), any modulus, including
+   the doubling branch, inputs at infinity and P + (-P) *)
+Theorem C01_h2c_dadd_on_curve :
+  forall p a4 b P Q,
+    jac_eq p (a_of a4) b P -> jac_eq p (a_of a4) b Q -> jac_eq p (a_of a4) b (dadd ZNum p a4 P Q).
+Proof. exact dadd_on_curve. Qed.
+
+Theorem C01_h2c_double_on_curve :
+  forall p b P, jac_eq p 0 b P -> jac_eq p 0 b (jdbl (FpOps ZNum p) P).
+Proof. exact jdbl_on_curve. Qed.
+
+(* the whole of blst's map_to_g1 (SSWU of both elements, addition on E1', isogeny, cofactor
+   clearing by any doubling chain): the result satisfies the Jacobian equation of E1 *)
+Theorem C01_h2c_map_to_g1_on_E1 :
+  forall chain u v,
+    jac_eq pZ 0 4 (map_to_g1 ZNum pZ (iso_params ZNum) (iso_tabs ZNum) chain u v).
+Proof. exact (map_to_g1_on_E1 Primes.bls_p_prime). Qed.
+
+(* H(m) as the model predicts it from the 128 hasher bytes (the BigZ execution used by the
+   correspondence runs, through the affine conversion) is the point at infinity or a point of E1 *)
+Theorem C01_h2c_image_on_E1 :
+  forall hash x y,
+    map_to_G1_pt hash = Some (Aff1 x y) -> (y * y) mod pZ = (x * x * x + 4) mod pZ.
+Proof. exact (map_to_G1_pt_on_E1 Primes.bls_p_prime). Qed.
+Print Assumptions C01_h2c_iso_spec_on_E1.
+Print Assumptions C01_h2c_map_to_g1_on_E1.
+Print Assumptions C01_h2c_image_on_E1.
+
+(* non-vacuity: a point of E1' with a finite image under the specification's isogeny (the SSWU
+   image of u = 1), and a hasher output whose image is a finite point *)
+Example C01_h2c_iso_spec_hypotheses_satisfiable :
+  (sample_E1prime_y * sample_E1prime_y) mod pZ =
+  (sample_E1prime_x * sample_E1prime_x * sample_E1prime_x + rfc_Aprime * sample_E1prime_x + rfc_Bprime) mod pZ /\
+  exists X Y, spec_iso_map ZNum pZ (map (n_of_Z ZNum) rfc_k1) (map (n_of_Z ZNum) rfc_k2)
+                (map (n_of_Z ZNum) rfc_k3) (map (n_of_Z ZNum) rfc_k4)
+                (Some (sample_E1prime_x, sample_E1prime_y)) = Some (X, Y).
+Proof. split; [exact (proj1 sample_E1prime_ok)|exact sample_E1prime_image]. Qed.
+Example C01_h2c_image_finite_example :
+  exists x y, map_to_G1_pt kat_equal_halves = Some (Aff1 x y).
+Proof. vm_compute. eexists. eexists. reflexivity. Qed.
